@@ -46,8 +46,11 @@ def run(ctx, chk):
             if v[0] == 'agg' and v[1][3] == 'Some' and v[2][0][0] == 'agg' and v[2][0][1][1] == DMA:
                 names = facts['adts'][DMA]['fields']
                 vals = {f['name']: v[2][0][2][i] for i, f in enumerate(names)}
-                src_ok = vals['source'] == O(64, 'shl', O(64, 'zext', bm.VALUE), C(64, 8))
-                off_ok = vals['current_offset'] == C(8, 0)
+                from ..affine import equal_mod as _eq
+                want_src = O(64, 'shl', O(64, 'zext', bm.VALUE), C(64, 8))
+                src_ok = vals['source'] == want_src or (T.is_int(vals['source']) and
+                                                         _eq(vals['source'], want_src, p['env'], 64))
+                off_ok = p['env'].const_of(vals['current_offset']) == 0 if T.is_int(vals['current_offset']) else False
                 okk = src_ok and off_ok
                 if not okk:
                     chk.fail('C16.1', 'arm:value', 'write to 0xff46 arms source=%s offset=%s (expected value << 8, 0)'
